@@ -27,6 +27,49 @@ fn main() {
         "C02" => checks_e2::c02(&mut rep, &tier, seed),
         "C03" => checks_e1::c03(&mut rep, &tier, seed),
         "C03M" => checks_e1::c03_miri(&mut rep, seed),
+        #[cfg(feature = "sr")]
+        "XCHECK" => {
+            // auxiliary: state counts of the home-made BFS vs stateright on small closures
+            use mcx::checks_e1::*;
+            use mcx::e1::*;
+            use mcx::session::*;
+            let caps = caps("quick");
+            let mut run = |name: String, a: u64, b: u64, bad: bool| {
+                eprintln!("  xcheck {}: bfs={} stateright={} violation={}", name, a, b, bad);
+                rep.notes.push(format!("xcheck {} bfs={} stateright={}", name, a, b));
+                if a != b || bad {
+                    rep.machinery.push(format!("cross-check mismatch in {}: bfs {} states, stateright {} (violation found: {})", name, a, b, bad));
+                }
+            };
+            // C05 editor closure
+            let alphabet = vec![ch('a'), ch('b'), ch('é'), ch('中'), ch('𝄞'), k(Key::Bs), k(Key::Left), k(Key::Right)];
+            for cb in [3usize, 5] {
+                let cfg = base_cfg("C05", format!("editor cb={} hb=0 raw", cb), cb, 0, alphabet.clone(), Mon { editor: true, invariants: true, ..Default::default() });
+                let m = SessModel::<embedded_cli::command::RawCommand<'static>>::new(cfg);
+                let (a, b, bad) = mcx::xcheck::cross_check(m, &caps);
+                run(format!("C05 editor cb={}", cb), a, b, bad);
+            }
+            // C10 history closure
+            let alphabet = vec![ch('a'), ch('é'), k(Key::Bs), k(Key::Left), k(Key::Lf), k(Key::Up), k(Key::Down)];
+            for (cb, hb) in [(2usize, 5usize), (3, 6)] {
+                let cfg = base_cfg("C10", format!("history cb={} hb={}", cb, hb), cb, hb, alphabet.clone(), Mon { history: true, invariants: true, ..Default::default() });
+                let m = SessModel::<embedded_cli::command::RawCommand<'static>>::new(cfg);
+                let (a, b, bad) = mcx::xcheck::cross_check(m, &caps);
+                run(format!("C10 history cb={} hb={}", cb, hb), a, b, bad);
+            }
+            // C04 / C02 decoder closures
+            let (a, b, bad) = mcx::xcheck::cross_check(mcx::e2::DecUnitModel { units: mcx::e2::key_units(false), prop: "C04" }, &caps);
+            run("C04 key units".into(), a, b, bad);
+            let (a, b, bad) = mcx::xcheck::cross_check(mcx::e2::AccModel { bytes: (0u8..=255).collect(), prop: "C02" }, &caps);
+            run("C02 Utf8Accum".into(), a, b, bad);
+            // C06 screen closure (terminal emulator in the key)
+            let cfg = base_cfg("C06", "screen cb=3 hb=4".to_string(), 3, 4, c06_alphabet(), Mon { term: true, invariants: true, ..Default::default() });
+            let mut cfg = cfg;
+            cfg.names = mcx::cmds::cmd4_names();
+            let m = SessModel::<mcx::cmds::Cmd4>::new(cfg);
+            let (a, b, bad) = mcx::xcheck::cross_check(m, &caps);
+            run("C06 screen cb=3 hb=4".into(), a, b, bad);
+        }
         "C04" => checks_e2::c04(&mut rep, &tier, seed),
         "C05" => checks_e1::c05(&mut rep, &tier, seed, "C05"),
         "C06" => checks_e1::c06(&mut rep, &tier, seed, "C06"),
